@@ -1,7 +1,8 @@
 /-
   GffModel.Export — coordinate conventions of the exports: `FeatureDB.bed12` (interface.py L1828-1986),
   `convert.to_bed12` (convert.py L6-42), `Feature.sequence` (feature.py L365-394) over an abstract FASTA
-  map (pyfaidx is modelled: 0-based half-open slicing, reverse complement on `ACGTNacgtn`).
+  map (pyfaidx is modelled: 0-based half-open slicing, reverse complement on the IUPAC nucleotide codes
+  `ACGTNRYKMSWBDHVX` in both cases; pyfaidx raises ValueError on any other character, which is outside the model).
 -/
 import GffModel.Interface
 
@@ -89,11 +90,15 @@ def toBed12 (s : Session) (id : Str) (childType : Str) (nameField : Str) : Py St
     optStr f.stop, "0,0,0".toList, Str.natToStr children.length, commaJoin (sizes.map Str.intToStr),
     commaJoin (starts.map Str.intToStr)] ++ ['\n'])
 
-/-- complement on the modelled alphabet; other characters are outside the model (kept unchanged) -/
+/-- complement on the modelled alphabet (IUPAC codes, both cases); other characters are outside the model (kept
+unchanged here; pyfaidx rejects them) -/
 def complement (c : Char) : Char :=
   match c with
   | 'A' => 'T' | 'C' => 'G' | 'G' => 'C' | 'T' => 'A' | 'N' => 'N'
   | 'a' => 't' | 'c' => 'g' | 'g' => 'c' | 't' => 'a' | 'n' => 'n'
+  -- IUPAC ambiguity codes (pyfaidx's table): R↔Y, K↔M, B↔V, D↔H; S, W, N, X are their own complement
+  | 'R' => 'Y' | 'Y' => 'R' | 'K' => 'M' | 'M' => 'K' | 'B' => 'V' | 'V' => 'B' | 'D' => 'H' | 'H' => 'D'
+  | 'r' => 'y' | 'y' => 'r' | 'k' => 'm' | 'm' => 'k' | 'b' => 'v' | 'v' => 'b' | 'd' => 'h' | 'h' => 'd'
   | x => x
 
 /-- Python slice `seq[a:b]` for `0 ≤ a` -/
